@@ -360,3 +360,73 @@ def parallel_map(func, items, procs=None, chunk=200):
     ctx = mp.get_context('fork')
     with ctx.Pool(procs) as pool:
         return pool.map(func, items, chunksize=max(1, min(chunk, len(items) // (procs * 4) or 1)))
+
+
+# ---------------------------------------------------------------------------
+# a map that survives items on which the implementation never returns, also when it is stuck inside C code (a regular
+# expression that backtracks for hours holds the GIL: neither a Python signal handler nor a Python thread gets to run)
+
+_HANG = {}
+
+
+def _hangsafe_chunk(args):
+    import faulthandler
+    func, items, deadline, hang_dir = args
+    side = os.path.join(hang_dir, 'item-%d.json' % os.getpid())
+    sink = _HANG.setdefault('sink', open(os.devnull, 'w'))
+    out = []
+    for it in items:
+        with open(side, 'w') as f:
+            json.dump(it, f, default=str)
+        faulthandler.dump_traceback_later(deadline, exit=True, file=sink)       # a C-level watchdog thread: _exit(1) at the deadline
+        try:
+            out.append(func(it))
+        finally:
+            faulthandler.cancel_dump_traceback_later()
+    os.unlink(side)
+    return out
+
+
+def parallel_map_hangsafe(func, items, chunk=100, deadline=60, procs=None):
+    """-> (results of the items that finished [order kept among them], items on which a worker had to be killed at the deadline)"""
+    import multiprocessing as mp
+    from concurrent.futures import ProcessPoolExecutor
+    from concurrent.futures.process import BrokenProcessPool
+    procs = procs or NPROC
+    hang_dir = scratch_dir('xdv-hang')
+    chunks = [items[i:i + chunk] for i in range(0, len(items), chunk)]
+    results, hung = [], []
+    ex = ProcessPoolExecutor(procs, mp_context=mp.get_context('fork'))
+    try:
+        futs = [ex.submit(_hangsafe_chunk, (func, c, deadline, hang_dir)) for c in chunks]
+        for f in futs:
+            try:
+                results.extend(f.result())
+            except BrokenProcessPool:
+                break
+    finally:
+        ex.shutdown(wait=False, cancel_futures=True)
+    for name in sorted(os.listdir(hang_dir)):
+        if name.startswith('item-'):
+            try:
+                hung.append(json.load(open(os.path.join(hang_dir, name))))
+            except Exception:
+                hung.append('<unreadable item>')
+    if hung:
+        # only the items of workers that were INSIDE an item when the pool broke; those that were merely interrupted are not hangs:
+        # re-run each candidate alone, under the same deadline, to tell them apart
+        confirmed = []
+        for it in hung:
+            p = mp.get_context('fork').Process(target=_hangsafe_chunk, args=((func, [it], deadline, hang_dir + '-confirm'),))
+            os.makedirs(hang_dir + '-confirm', exist_ok=True)
+            p.start()
+            p.join(deadline + 30)
+            if p.is_alive():
+                p.kill()
+                p.join()
+            if p.exitcode != 0:
+                confirmed.append(it)
+        import shutil
+        shutil.rmtree(hang_dir + '-confirm', ignore_errors=True)
+        hung = confirmed
+    return results, hung
